@@ -227,6 +227,19 @@ def main():
                 c = running.pop(f)
                 budget += c["np"]
                 results.append(f.result())
+    # a configuration whose launch failed (crash, hang, MPI error) is repeated once on its own: a failure that does not
+    # repeat with the same seed and inputs is recorded in the evidence notes and not reported (machine load, launcher
+    # hiccups); one that repeats is reported with its progress string
+    n_failed_launches = sum(1 for r in results if r["rc"] != 0)
+    for i, r in enumerate(results):
+        # ... and only when at most two launches failed: a disturbance does not strike many launches of one run, and
+        # repeating a dozen hanging configurations one after the other would only delay the report
+        if r["rc"] != 0 and not a.replay and pid != "C05" and n_failed_launches <= 2:     # C05 is about timing: a failure that does not repeat is still a failure
+            c = r["cfg"]
+            r2 = run_config(c, exes[(c["harness"], bool(c.get("asan", spec.get("asan"))), c.get("cxx", ""))], pid, tier, seed, workdir)
+            if r2["rc"] == 0:
+                notes.append(f"configuration {c['tag']} failed once (rc={r['rc']}) and passed when repeated with the same seed: not reported")
+                results[i] = r2
     results.sort(key=lambda r: r["cfg"]["tag"])
 
     # ---- 3. collect ---------------------------------------------------------------------------
